@@ -8,6 +8,40 @@ use std::path::Path;
 
 use super::error::{StorageError, StorageResult};
 
+/// Atomically replace the file at `path` with `content`.
+///
+/// Writes `{path}.tmp`, calls `sync_all()` on it, renames it over `path` and then syncs the
+/// parent directory so the rename itself is durable. A crash at any point leaves either the
+/// complete old file or the complete new file at `path` - never a truncated one.
+pub fn write_file_atomic(path: &Path, content: &[u8]) -> std::io::Result<()> {
+    use std::io::Write;
+
+    let tmp_name = format!(
+        "{}.tmp",
+        path.file_name().unwrap_or_default().to_string_lossy()
+    );
+    let tmp_path = path.with_file_name(tmp_name);
+
+    let written = (|| {
+        let mut file = File::create(&tmp_path)?;
+        file.write_all(content)?;
+        // Ensure the new content is on disk before it becomes visible under `path`
+        file.sync_all()?;
+        fs::rename(&tmp_path, path)
+    })();
+    if let Err(e) = written {
+        let _ = fs::remove_file(&tmp_path);
+        return Err(e);
+    }
+
+    // Sync parent directory to ensure the rename is durable
+    let parent = match path.parent() {
+        Some(p) if !p.as_os_str().is_empty() => p,
+        _ => Path::new("."),
+    };
+    File::open(parent)?.sync_all()
+}
+
 /// System-wide metadata for all knowledge graphs
 #[derive(Debug, Clone, Serialize, Deserialize)]
 pub struct KnowledgeGraphsMetadata {
